@@ -10,6 +10,22 @@ CHECKS = {
          "Every channel view of every generated (type, channel count, window) shape is read, written and index-queried against a canary arena whose cells are re-read through the verif hook; held on the executions listed in the evidence.",
          "Oracle position arithmetic C*i+c is the harness's own; arena re-read through VerifData (hook); Go runtime bounds checks.",
          "6/C14"),
+ "C13": ("shape/zero-fill/address-interval monitor over generated allocations (runtime oracle on the real code)",
+         "Every generated allocation (26 element types incl. named ones) is checked for shape, bit depth, zero fill over its capacity and, in groups of live allocations, for disjoint address intervals and stamp isolation; held on the executions listed in the evidence.",
+         "Addresses and capacity contents come from the verif hook; expected bit depth is 8*sizeof(T) computed by reflection in the harness.",
+         "6/C13"),
+ "C16": ("exact-arithmetic (math/big) reference monitor over all 64 depths and boundary-dense + seeded values",
+         "All 64 depths are enumerated; bounds, clipping (identity, nearest bound, idempotence, order) and Scale for 11 integer types are compared with math/big on every generated value; complete on the depth axis, sampled on the value axis.",
+         "math/big is the trusted oracle; Scale only asserted where 2^(h-l) fits the type.",
+         "6/C16"),
+ "C17": ("exact-rational reference monitor with tie-hunting inputs",
+         "Duration/Events compared with exact rationals within the derived float allowance, monotonicity on sorted arguments and the count->duration->count round trip, over standard, seeded integer and fractional rates with inputs chosen closest to rounding ties.",
+         "big.Rat on the float64's exact value; allowance 0.5+3*2^-53*|exact| derived from the implementation's two roundings.",
+         "6/C17"),
+ "C20": ("grid enumeration of degenerate shapes x entry points under recover() with inertness oracle",
+         "The finite grid of degenerate allocators x every exported entry point is executed; any panic, non-zero count, transferred sample or changed caller slice is a violation. Thorough tier enumerates all 169 type pairs and 169 conversion instantiations.",
+         "Go runtime panics are observed through recover(); buffer contents re-read through the verif hook.",
+         "6/C20"),
 }
 PENDING = {}
 
